@@ -8,6 +8,8 @@ def show(v):
     if isinstance(v, (int, str)): return v
     if isinstance(v, type): return ('class', v.v)
     if callable(v): return ('fn', v())
+    if isinstance(v, tuple): return ('star',) + tuple(show(i) for i in v)
+    if isinstance(v, dict): return ('kwstar',) + tuple((k, show(i)) for k, i in v.items())
     return type(v).__name__
 '''
 
@@ -22,7 +24,7 @@ ROLES = {
                  "classref-read", "classref-nonlocal-assign", "classref-nonlocal-aug"),
     "class": ("none", "read", "assign", "aug", "walrus", "for", "def", "class", "import", "global-assign", "global-read",
               "nonlocal-assign", "nonlocal-read", "late-assign"),
-    "lambda": ("none", "read", "param", "walrus", "param-default"),
+    "lambda": ("none", "read", "param", "walrus", "param-default", "param-star", "param-kwstar", "param-kwonly", "param-posonly"),
     "comp": ("none", "read", "target", "walrus", "iter-read", "iter-target"),
 }
 
@@ -122,7 +124,7 @@ class Render:
             items.append(f"print({sid}, 'i', show(_i{sid}))")
         if r in ("read", "iter-read"):
             items.append(f"print({sid}, 'r', show({x}))")
-        elif r in ("param", "target", "param-default", "iter-target"):
+        elif r in ("param", "target", "param-default", "iter-target", "param-star", "param-kwstar", "param-kwonly", "param-posonly"):
             items.append(f"print({sid}, 'a', show({x}))")
         elif r == "walrus":
             items.append(f"print({sid}, 'w', ({x} := {t}))")
@@ -137,6 +139,15 @@ class Render:
                 return f"(lambda {x}: {body})({t})"
             if r == "param-default":
                 return f"(lambda {x}={t}: {body})()"
+            # every kind of parameter binds its name in the lambda
+            if r == "param-star":
+                return f"(lambda *{x}: {body})({t})"
+            if r == "param-kwstar":
+                return f"(lambda **{x}: {body})(k={t})"
+            if r == "param-kwonly":
+                return f"(lambda *, {x}: {body})({x}={t})"
+            if r == "param-posonly":
+                return f"(lambda {x}, /: {body})({t})"
             return f"(lambda: {body})()"
         if r == "target":
             return f"[{body} for {x} in [{t}]]"
@@ -198,6 +209,27 @@ def method_trees():
                                 Node("function", "nonlocal-assign")):
                         m = Node("function", r3, [kid] if kid else [])
                         yield Node("module", r0, [Node("function", r1, [Node("class", r2, [m])])])
+
+
+def binder_trees():
+    """an expression scope (lambda / comprehension) that BINDS the name - through every kind of parameter or target - below a
+    function that owns a variable of the same name in every storage form (plain local, captured by a sibling, free in the
+    function between, unknown to the function / class between)"""
+    inner = [Node("lambda", r) for r in ROLES["lambda"] if r.startswith("param")] + \
+            [Node("comp", r) for r in ("target", "iter-target", "walrus")]
+    for r0 in ("none", "assign"):
+        for owner in ("assign", "param", "for", "def"):
+            for b in inner:
+                def copy():
+                    return Node(b.kind, b.role, [Node("lambda", "read")] if b.role != "walrus" else [])
+                yield Node("module", r0, [Node("function", owner, [copy()])])
+                yield Node("module", r0, [Node("function", owner, [Node("function", "read"), copy()])])
+                yield Node("module", r0, [Node("function", owner, [copy(), Node("function", "nonlocal-assign")])])
+                for mid in ("read", "nonlocal-read", "nonlocal-assign", "none"):
+                    yield Node("module", r0, [Node("function", owner, [Node("function", mid, [copy()])])])
+                    yield Node("module", r0, [Node("function", owner, [Node("function", mid, [Node("function", "none", [copy()])])])])
+                for mid in ("none", "read", "assign"):
+                    yield Node("module", r0, [Node("function", owner, [Node("class", mid, [copy()])])])
 
 
 def random_tree(rng, kind="module", depth=4, max_children=2, parent=None):
